@@ -109,3 +109,9 @@ _t("C10",
    "the fault-free result. Exhaustive over positions per (operation, state); states and operations are sampled.",
    "Trusted: internal/proxydb fault injection (walletdb interface level), the C01/C13 and C08 query sets as the definition of 'as before'.",
    "property-based testing with exhaustive single-fault injection per generated (state, operation)", "DESIGN.md §3 C10")
+
+_t("C06",
+   "A funded wallet with ineligible coins of every kind receives generated transaction-creation requests through the public API; every input of every result is checked against an "
+   "independent coin ledger's eligible set, for reuse, and signed results are verified with the real script engine using ledger data, not the wallet's.",
+   "Trusted: harness coin ledger computed from emitted events; btcd script engine; internal/simchain.",
+   "property-based testing: generated wallet histories and requests vs ledger eligibility + script-engine validity oracle", "DESIGN.md §3 C06")
